@@ -43,6 +43,10 @@ def child_env(extra=None) -> dict:
     env["VERIF_KERNEL_WORLD"] = world
     env["NUMBA_CACHE_DIR"] = str(VERIF / ".cache" / "numba" / (source_hash() + "-" + world))
     env.setdefault("MPLBACKEND", "Agg")
+    # sixteen worker processes share the machine: idle OpenMP threads of the multi-thread kernel must sleep, not spin
+    env.setdefault("OMP_WAIT_POLICY", "PASSIVE")
+    env.setdefault("KMP_BLOCKTIME", "0")
+    env.setdefault("GOMP_SPINCOUNT", "0")
     if extra:
         env.update(extra)
     return env
